@@ -21,6 +21,8 @@ pub struct Scenario {
   pub seed_locker: RecordingLocker,
   pub is_dynamic: bool,
   pub cached_only_empty: bool,
+  /// `prefer_cached_jsr_versions` with exactly these version manifests in the cache
+  pub prefer_cached: Option<Vec<&'static str>>,
   pub describe: Value,
 }
 
@@ -43,7 +45,15 @@ fn pkg_a() -> RegPackage {
   }
 }
 
-pub const N_SCENARIOS: usize = 12;
+fn pkg_c() -> RegPackage {
+  RegPackage {
+    name: "@s/c".into(),
+    versions: ["1.0.0", "1.0.1", "1.0.2", "1.0.3", "2.0.0", "2.1.0"].iter().map(|v| RegVersion::new(v, &[("/mod.ts", "export const c = 1;\n")])).collect(),
+    raw_meta: None,
+  }
+}
+
+pub const N_SCENARIOS: usize = 14;
 
 pub fn scenario(i: usize) -> Scenario {
   let u = |s: &str| url(s);
@@ -55,6 +65,7 @@ pub fn scenario(i: usize) -> Scenario {
     seed_locker: RecordingLocker::default(),
     is_dynamic: false,
     cached_only_empty: false,
+    prefer_cached: None,
     describe: json!({"files": f.iter().map(|(a, b)| json!([a, b])).collect::<Vec<_>>(), "roots": roots}),
   };
   match i {
@@ -210,6 +221,22 @@ pub fn scenario(i: usize) -> Scenario {
       ];
       s
     }
+    12 | 13 => {
+      // the cache-only probes of the candidate versions run concurrently
+      let root: &'static str = if i == 12 { "import \"jsr:@s/c@^1\";\n" } else { "import \"jsr:@s/c@^1\";\nimport \"jsr:@s/c@^2\";\nimport \"jsr:@s/c@~1.0.2\";\n" };
+      let mut s = base(
+        if i == 12 { "prefer-cached-versions-with-one-of-four-manifests-cached" } else { "prefer-cached-versions-three-requirements-partly-cached" },
+        &[],
+        &["https://x/root.ts"],
+      );
+      s.install = Box::new(move |l| {
+        l.add_text("https://x/root.ts", root);
+        pkg_c().install(l);
+      });
+      s.prefer_cached = Some(if i == 12 { vec!["1.0.1"] } else { vec!["1.0.1", "1.0.2", "2.0.0"] });
+      s.describe = json!({"root": root, "registry": "@s/c 1.0.0 1.0.1 1.0.2 1.0.3 2.0.0 2.1.0", "prefer_cached_jsr_versions": true, "cached_version_manifests": s.prefer_cached});
+      s
+    }
     _ => unreachable!(),
   }
 }
@@ -236,6 +263,9 @@ pub fn run_build_susp(s: &Scenario, mode: SchedMode, queued: bool, ch: &Ch, hook
   if s.cached_only_empty {
     *loader.cached_only.borrow_mut() = Some(Default::default());
   }
+  if let Some(cached) = &s.prefer_cached {
+    *loader.cached_only.borrow_mut() = Some(cached.iter().map(|v| url(&format!("https://jsr.io/@s/c/{v}_meta.json"))).collect());
+  }
   let mut locker = s.seed_locker.clone();
   locker.log = Default::default();
   let mut graph = ModuleGraph::new(GraphKind::All);
@@ -247,7 +277,7 @@ pub fn run_build_susp(s: &Scenario, mode: SchedMode, queued: bool, ch: &Ch, hook
   if hook {
     let ch2 = ch.clone();
     deno_graph::verif_hooks::set_drain_order_callback(Some(Box::new(move |site, n| {
-      let label: &'static str = if site == "deferred" { "drain_deferred" } else { "drain_dynamic_branches" };
+      let label: &'static str = match site { "deferred" => "drain_deferred", "probe_candidates" => "order_of_probe_candidates", _ => "drain_dynamic_branches" };
       ch2.permutation(label, n, true)
     })));
   }
@@ -261,6 +291,7 @@ pub fn run_build_susp(s: &Scenario, mode: SchedMode, queued: bool, ch: &Ch, hook
       unstable_bytes: true,
       locker: Some(&mut locker),
       executor: if queued { Some(&q) } else { None },
+      prefer_cached_jsr_versions: s.prefer_cached.is_some(),
       ..Default::default()
     },
     ch,
@@ -366,7 +397,7 @@ fn body_worlds(space: crate::world::Space) -> impl Fn(&Ch) -> Run + Sync + Send 
       if hook {
         let ch2 = ch.clone();
         deno_graph::verif_hooks::set_drain_order_callback(Some(Box::new(move |site, n| {
-          let label: &'static str = if site == "deferred" { "drain_deferred" } else { "drain_dynamic_branches" };
+          let label: &'static str = match site { "deferred" => "drain_deferred", "probe_candidates" => "order_of_probe_candidates", _ => "drain_dynamic_branches" };
           ch2.permutation(label, n, true)
         })));
       }
@@ -410,7 +441,7 @@ pub fn prop(tier: Tier) -> Prop {
   let parts = match tier {
     Tier::Quick => vec![Part {
       name: "schedules",
-      body: Box::new(body(vec![0, 1, 2, 3, 4, 5, 6, 8, 9, 10, 11], false)),
+      body: Box::new(body(vec![0, 1, 2, 3, 4, 5, 6, 8, 9, 10, 11, 12], false)),
       modes: vec![Mode::Full],
       what: "every completion order of the gated loader futures and every drain order of the builder's hash maps, inline executor",
     },
@@ -419,6 +450,12 @@ pub fn prop(tier: Tier) -> Prop {
       body: Box::new(body(vec![7], false)),
       modes: vec![Mode::Deviations(2), Mode::Deviations(3)],
       what: "registry package with embedded module info: deferred content loads (FuturesUnordered), deviation-bounded schedules",
+    },
+    Part {
+      name: "prefer-cached",
+      body: Box::new(body(vec![13], false)),
+      modes: vec![Mode::Deviations(2), Mode::Deviations(3)],
+      what: "prefer_cached_jsr_versions with three requirements on one package and partly cached version manifests: the concurrent cache-only probes complete in any order",
     },
     Part {
       name: "suspensions",
@@ -435,7 +472,7 @@ pub fn prop(tier: Tier) -> Prop {
     Tier::Thorough => vec![
       Part {
         name: "schedules",
-        body: Box::new(body(vec![0, 1, 2, 3, 4, 5, 6, 8, 9, 10, 11], false)),
+        body: Box::new(body(vec![0, 1, 2, 3, 4, 5, 6, 8, 9, 10, 11, 12], false)),
         modes: vec![Mode::Full],
         what: "every completion order and every drain order, inline executor",
       },
@@ -452,8 +489,14 @@ pub fn prop(tier: Tier) -> Prop {
         what: "registry package with embedded module info: deferred content loads, both executors",
       },
       Part {
+        name: "prefer-cached",
+        body: Box::new(body(vec![13], true)),
+        modes: vec![Mode::Deviations(3), Mode::Deviations(4), Mode::Deviations(5)],
+        what: "prefer_cached_jsr_versions with three requirements on one package and partly cached version manifests, both executors",
+      },
+      Part {
         name: "suspensions",
-        body: Box::new(body_susp(vec![0, 1, 2, 3, 4, 5, 6, 8, 9, 10, 11], false, true)),
+        body: Box::new(body_susp(vec![0, 1, 2, 3, 4, 5, 6, 8, 9, 10, 11, 12], false, true)),
         modes: vec![Mode::Deviations(2), Mode::Deviations(3), Mode::Deviations(4)],
         what: "a released future may suspend 1 or 2 more times before it reports Ready; completion order as a deviation too",
       },
